@@ -1,16 +1,18 @@
 //verif:overlay share/availability/light/zz_verif_c03.go
-//verif:pkgs github.com/ipfs/go-datastore ./share ./share/availability ./share/shwap ./libs/utils ./header github.com/celestiaorg/go-square/v4/share github.com/celestiaorg/nmt
+//verif:pkgs path github.com/ipfs/go-datastore ./share ./share/availability ./share/shwap ./libs/utils ./header github.com/celestiaorg/go-square/v4/share github.com/celestiaorg/nmt
 //verif:replace github.com/celestiaorg/celestia-node/share/availability/light.randInt github.com/celestiaorg/celestia-node/share/availability/light.verifRandInt
 //verif:replace github.com/celestiaorg/celestia-node/share.EmptyEDSDataHash github.com/celestiaorg/celestia-node/share/availability/light.verifEmptyHash
 //verif:replace (*github.com/celestiaorg/celestia-app/v9/pkg/da.DataAvailabilityHeader).Hash github.com/celestiaorg/celestia-node/share/availability/light.verifDAHHash
 //verif:replace (*github.com/ipfs/go-datastore/autobatch.Datastore).Get github.com/celestiaorg/celestia-node/share/availability/light.verifDsGet
 //verif:replace (*github.com/ipfs/go-datastore/autobatch.Datastore).Put github.com/celestiaorg/celestia-node/share/availability/light.verifDsPut
+//verif:replace (*github.com/ipfs/go-datastore/autobatch.Datastore).Flush github.com/celestiaorg/celestia-node/share/availability/light.verifDsFlush
+//verif:replace (*github.com/ipfs/go-datastore/autobatch.Datastore).Sync github.com/celestiaorg/celestia-node/share/availability/light.verifDsSync
 //verif:replace encoding/json.Marshal github.com/celestiaorg/celestia-node/share/availability/light.verifMarshal
 //verif:replace encoding/json.Unmarshal github.com/celestiaorg/celestia-node/share/availability/light.verifUnmarshal
 //verif:noop github.com/celestiaorg/celestia-app/v9/pkg/da github.com/ipfs/go-datastore/autobatch
-//verif:init github.com/ipfs/go-datastore
-//verif:bound light availability: square of 2x2 cells (thorough: also 4x4), configured sample amount 2 or 5 (thorough: 1,2,3,5; so both "amount" and "whole square" limits are met), sample coordinates drawn as arbitrary symbolic values below the width; two consecutive checks of the same block, the second on a fresh instance over the same datastore cell (restart); per check the getter returns nothing, or a full-length result in which any subset of positions is non-empty, with or without an error (incl. context.Canceled); the datastore Put may fail
-//verif:assume the getter hands back only verified samples (C06) and keeps its documented contract (result in request order, empty positions for failures, or no result); crypto/rand is replaced by arbitrary values in range (unpredictability/uniformity is a probabilistic statement outside any solver verdict); JSON encoding of the sampling result is the identity; the datastore is one cell
+//verif:init github.com/ipfs/go-datastore github.com/celestiaorg/celestia-node/share/availability/light
+//verif:bound light availability: square of 2x2 cells (thorough: also 4x4), configured sample amount 2 or 5 (thorough: 1,2,3,5; so both "amount" and "whole square" limits are met), sample coordinates drawn as arbitrary symbolic values below the width; two consecutive checks of the same block, the second on a fresh instance after a graceful shutdown (the real Close, then only what the write buffer handed to the underlying store survives); per check the getter returns nothing, or a full-length result in which any subset of positions is non-empty, with or without an error (incl. context.Canceled); the datastore Put may fail
+//verif:assume the getter hands back only verified samples (C06) and keeps its documented contract (result in request order, empty positions for failures, or no result); crypto/rand is replaced by arbitrary values in range (unpredictability/uniformity is a probabilistic statement outside any solver verdict); JSON encoding of the sampling result is the identity; the datastore is one cell behind a write buffer with autobatch's semantics (Put buffers, Get reads through the buffer, Flush commits everything, Sync(prefix) commits only buffered keys equal to or below the prefix)
 //verif:outside uniform/unpredictable drawing; loss of buffered autobatch writes on an ungraceful crash; concurrent calls for the same height (utils.Sessions)
 package light
 
@@ -57,7 +59,10 @@ func verifDAHHash(d *da.DataAvailabilityHeader) []byte {
 // ---- datastore cell + JSON identity ------------------------------------------
 
 var (
-	verifCell     *SamplingResult // persisted value (nil = not found)
+	verifCell     *SamplingResult // value the instance sees: buffered write, else the durable one (nil = not found)
+	verifDurable  *SamplingResult // what the underlying store holds: survives a restart
+	verifDirty    bool            // the buffer holds a write the underlying store has not seen
+	verifBufKey   datastore.Key   // key of the buffered write
 	verifPutFails bool
 	verifPuts     int
 	verifBlobs    []*SamplingResult
@@ -104,7 +109,22 @@ func verifDsPut(d *autobatch.Datastore, ctx context.Context, k datastore.Key, va
 		return err
 	}
 	verifCell = &r
+	verifDirty, verifBufKey = true, k
 	verifPuts++
+	return nil
+}
+
+// autobatch.Flush: every buffered write reaches the underlying store
+func verifDsFlush(d *autobatch.Datastore, ctx context.Context) error {
+	verifDurable, verifDirty = verifCell, false
+	return nil
+}
+
+// autobatch.Sync: only buffered keys equal to or below the prefix are committed
+func verifDsSync(d *autobatch.Datastore, ctx context.Context, prefix datastore.Key) error {
+	if verifDirty && (verifBufKey.Equal(prefix) || verifBufKey.IsDescendantOf(prefix)) {
+		verifDurable, verifDirty = verifCell, false
+	}
 	return nil
 }
 
@@ -187,6 +207,11 @@ func VerifH_C03_AvailableOnlyAfterAllSamples() {
 	eh.RawHeader.Height = 9
 	eh.RawHeader.Time = time.Now()
 	verifCell, verifPuts, verifBlobs = nil, 0, nil
+	verifDurable, verifDirty = nil, false
+	// the package's own initialisers ran in the engine (a silently empty prefix
+	// would make every Sync look like a Flush): otherwise no path survives
+	// and the cover goals make the check inconclusive
+	nd.Assume(samplingResultsPrefix.String() != "")
 	verifDraws, verifMaxDraws = 0, 2*(need+1)
 	g := &verifGetter{}
 
@@ -235,5 +260,11 @@ func VerifH_C03_AvailableOnlyAfterAllSamples() {
 		} else if verifCell != nil && len(verifCell.Remaining) > 0 {
 			nd.Cover("pending")
 		}
+		// graceful shutdown: the real Close, after which only what reached the
+		// underlying store is left for the next instance
+		if cerr := la.Close(context.Background()); cerr == nil {
+			nd.Assert(!verifDirty, "close-persists-the-buffered-sampling-result")
+		}
+		verifCell, verifDirty = verifDurable, false
 	}
 }
